@@ -2059,10 +2059,11 @@ class Memoer(Tymee):
             else:
                 raise  # unexpected error
 
-        if cnt:
-            del gram[:cnt]  # remove from buffer those bytes sent
+        if dst is not None:  # not dropped
+            del gram[:cnt]  # remove from buffer those bytes sent if any
             if not gram:  # all sent
                 dst = None  # done indicated by setting dst to None
+            # keep unsent remainder, which is whole gram when send would block
             self.txbs = (gram, dst)  # update .txbs to indicate if completely sent
 
         return (False if dst else True)  # incomplete return False, else True
@@ -2077,7 +2078,7 @@ class Memoer(Tymee):
            echoic (bool): True means echo sends into receives via. echos
                            False measn do not echo
         """
-        if self.opened and self.txgs:
+        if self.opened and (self.txgs or self.txbs[1] is not None):
             self._serviceOnceTxGrams(echoic=echoic)
 
 
@@ -2090,7 +2091,7 @@ class Memoer(Tymee):
            echoic (bool): True means echo sends into receives via. echos
                            False measn do not echo
         """
-        while self.opened and self.txgs:  # pending gram(s)
+        while self.opened and (self.txgs or self.txbs[1] is not None):  # pending
             if not self._serviceOnceTxGrams(echoic=echoic):  # send incomplete
                 break  # try again later
 
